@@ -402,8 +402,8 @@ Inductive fsite :=
 | SDrop (s : nid) (port : bool) (x : ident)(* association of formal x dropped from instantiation s     *)
 | SFlip (s : nid)                          (* signal assignment <-> variable assignment                *)
 | SStmt (s : nid) (st : stmt)              (* statement s := st (calls without actuals, wrong callee)  *)
-| SRootAt (s : nid) (e : expr) (n : nid).  (* root expression of phrase s := e, to be blamed at node n (an
-                                              element of an aggregate, at any depth, replaced)         *)
+| SRootAt (s : nid) (e : expr) (c : expr). (* root expression of phrase s := e, which is the old one with an
+                                              element of an aggregate (at any depth) replaced by c      *)
 
 Definition plant_phrase (st : fsite) (ph : phrase) : phrase :=
   match st with
@@ -495,7 +495,7 @@ Definition expect_nid_at (st : fsite) (m : nid) (i : option pinfo) : nid :=
       | None => 0
       end
   | SStmt s st' => stmt_nid st'
-  | SRootAt _ _ n => n
+  | SRootAt _ _ c => head_nid c
   end.
 Definition expect_nid (st : fsite) (p : program) : nid :=
   expect_nid_at st (max_nid p) (find_phrase p (site_nid st)).
@@ -504,7 +504,19 @@ Definition expect_nid (st : fsite) (p : program) : nid :=
    phrase, is rejected at the expected node with the class of the fault *)
 Definition local_blame (i : pinfo) (ph' : phrase) : option (nid * cls) :=
   match check_phrase Exactly (pi_GE i) (pi_G i) ph' with Ok _ => None | Bad n c => Some (n, c) end.
+(* VHDL-2008 9.3.3.3: an element of an ARRAY aggregate may also be of the type of the aggregate itself, which the
+   reference does not accept; an array-typed object planted as an aggregate element is therefore no fault site *)
+Definition not_array_valued (i : pinfo) (st : fsite) : bool :=
+  match st with
+  | SRootAt _ _ c =>
+      match interp Exactly (pi_GE i) (pi_G i) c with
+      | Ok l => negb (existsb (fun t => match t with SArr _ _ _ _ => true | _ => false end) l)
+      | Bad _ _ => true
+      end
+  | _ => true
+  end.
 Definition eligible_at (f : fclass) (st : fsite) (m : nid) (i : pinfo) : bool :=
+  not_array_valued i st &&
   match local_blame i (plant_phrase st (pi_ph i)) with
   | Some (n, c) => (n =? expect_nid_at st m (Some i)) && cls_eqb c (fclass_cls f)
   | None => false
@@ -595,7 +607,7 @@ with args_variants (c : expr) (a : args) {struct a} : list args :=
   end.
 Definition agg_candidates (cands : list expr) (i : pinfo) : list fsite :=
   match phrase_root (pi_ph i) with
-  | Some e => flat_map (fun c => map (fun e' => SRootAt (pi_id i) e' (head_nid c)) (agg_variants c e)) cands
+  | Some e => flat_map (fun c => map (fun e' => SRootAt (pi_id i) e' c) (agg_variants c e)) cands
   | None => []
   end.
 Definition root_phrases (p : program) : list pinfo :=
